@@ -252,4 +252,4 @@ def exh_shard(arg, stt, deadline) -> None:
 def run(ctx) -> None:
     ctx.exhaustive("fixed-project-pattern-list", MOD, "exh_shard", [("",), ("a",), ("a/handlers",), ("util",)],
                    f"fixed project with colliding names x module_path in 4 places x {{exclude, include, {len(GLOBS)} globs, {len(REGEXES)} regexes, {len(GLOBS)} glob pairs}}")
-    ctx.random("random-trees-and-options", MOD, "strategy", "check_case", 5000 if ctx.tier == "quick" else 60000)
+    ctx.random("random-trees-and-options", MOD, "strategy", "check_case", 5000 if ctx.tier == "quick" else 150000)
